@@ -35,6 +35,9 @@ def impl_answer(line):
     if cmd in ('EVAL', 'SESSION', 'DEC', 'BUILTIN', 'FRESH'):
         import evalimpl
         return evalimpl.answer(im, cmd, rest)
+    if cmd == 'MON':
+        import monimpl
+        return monimpl.answer(im, rest)
     return 'bad-op'
 
 
@@ -62,8 +65,10 @@ def pool():
 
 
 def run_impl(lines, chunk=500):
-    if lines and lines[0].startswith(('SESSION', 'FRESH')):
+    if lines and lines[0].startswith(('SESSION', 'FRESH', 'MON c11', 'MON c17', 'MON c05', 'MON c03_adders', 'MON c13')):
         chunk = 4
+    elif lines and lines[0].startswith('MON'):
+        chunk = 100
     if len(lines) <= chunk:
         return _impl_chunk(lines)
     chunks = [lines[i:i + chunk] for i in range(0, len(lines), chunk)]
